@@ -458,6 +458,17 @@ def correspondence(res, tier, rng):
             "live=%s,%s" % (hexs(c["twin"][0]), hexs(c["twin"][1])), "meta-simple:%d" % i,
             "same assignments on a SimpleProcessTensor")
 
+    # (h) histories: use, overwrite a step, compute_caps, export, import -- against a fresh twin
+    nh = 4 if tier == "quick" else 24
+    for i in range(nh):
+        payload, problems = history_case(rng, rank=3 if i % 2 == 0 else 4, with_tr=(i % 4 == 3) and "both")
+        res.count("history")
+        res.case("history:%d" % i, True)
+        for name, p in problems:
+            res.disagree("after use -> set_mpo_tensor -> compute_caps -> export -> import, the %s "
+                         "differs from a fresh process tensor holding the final tensors: %s"
+                         % (name, p), payload)
+
     # (f) every consumer on imported real process tensors (the model's claim: imported = original)
     cons_cases = [("z", 3), ("y", 2)] if tier == "quick" else \
         [("z", 3), ("y", 2), ("x", 3), ("z", 6), ("y", 5)]
@@ -792,6 +803,74 @@ def judge_getset(rng, n):
     return bad
 
 
+def history_case(rng, rank=3, with_tr=False):
+    """use -> overwrite a step -> compute_caps -> export -> import, judged against a FRESH
+    in-memory process tensor built from the final tensors.  Returns (spec, problems)."""
+    import oqupy
+    spec = gen_pt_spec(rng, length=rng.randrange(2, 4), rank=rank, max_bond=2, with_tr=with_tr,
+                       with_dt=True, square=True)
+    pt = build_simple(spec)
+    n = len(pt)
+    for k in range(n):                       # use it once
+        pt.get_mpo_tensor(k)
+        pt.get_mpo_tensor(k, transformed=False)
+    try:
+        dynamics_of(pt)
+    except Exception:
+        pass
+    k0 = rng.randrange(n)
+    new = base._rand_arr(rng, tuple(spec["mpos"][k0]["shape"]))
+    pt.set_mpo_tensor(k0, new)
+    pt.compute_caps()
+    final = [tensor_of(m) for m in spec["mpos"]]
+    final[k0] = new
+    fresh = oqupy.SimpleProcessTensor(
+        hilbert_space_dimension=spec["hs"], dt=spec["dt"], transform_in=tensor_of(spec["tin"]),
+        transform_out=tensor_of(spec["tout"]), name=spec["name"], description=spec["descr"])
+    for k, t in enumerate(final):
+        fresh.set_mpo_tensor(k, t)
+    fresh.compute_caps()
+    problems = []
+    d = tempfile.mkdtemp(prefix="c16hist_")
+    try:
+        path = os.path.join(d, "pt.hdf5")
+        pt.export(path, overwrite=True)
+        who = [("original", pt)]
+        for kind in ("file", "simple"):
+            view, obj = real_import(path, kind)
+            if obj is None:
+                problems.append(("import-" + kind, "import fails: " + view))
+            else:
+                who.append(("import-" + kind, obj))
+        for name, obj in who:
+            for k in range(n):
+                for tr in (True, False):
+                    a = obj.get_mpo_tensor(k, transformed=tr)
+                    b = fresh.get_mpo_tensor(k, transformed=tr)
+                    if a.ndim == 3:
+                        a = oqupy.util.create_delta(a, [0, 1, 2, 2])
+                    if a.shape != b.shape or not np.array_equal(a, b):
+                        problems.append((name, "mpo tensor %d (the overwritten step is %d)" % (k, k0)))
+                        break
+                else:
+                    continue
+                break
+            for k in range(n + 1):
+                a, b = obj.get_cap_tensor(k), fresh.get_cap_tensor(k)
+                if (a is None) != (b is None) or (a is not None and (
+                        a.shape != b.shape or np.max(np.abs(a - b)) > 1e-12)):
+                    problems.append((name, "cap tensor %d" % k))
+                    break
+            ok, detail = same_dynamics(fresh, obj)
+            if not ok:
+                problems.append((name, "dynamics: " + detail))
+            if name == "import-file":
+                _close(obj)
+    finally:
+        shutil.rmtree(d, ignore_errors=True)
+    return {"pt": spec, "overwritten_step": k0, "new_tensor": tensor_spec(new)}, problems
+
+
 def _slug(problem):
     import re
     return re.sub(r"\s*\d+$", "", problem.split(":")[0]).strip().replace(" ", "-")
@@ -807,6 +886,14 @@ def search(res, rng=None):
     for i in range(8):
         for key, payload in judge_meta(meta_case(rng)):
             res.fail(key, payload)
+    for i in range(6):
+        payload, problems = history_case(rng, rank=3 if i % 2 == 0 else 4, with_tr=(i % 4 == 3) and "both")
+        for name, p in problems:
+            res.fail("history:use-overwrite-export:%s:%s" % (name, _slug(p.split("(")[0].strip())),
+                     dict(payload, who=name, problem=p,
+                          how="build, use (get_mpo_tensor / compute_dynamics), set_mpo_tensor(step, "
+                              "new), compute_caps, export, import; compared with a fresh "
+                              "SimpleProcessTensor holding the final tensors"))
     for coupling, steps in (("z", 3), ("y", 2), ("h3", 2)):
         r = pttempo_pair(coupling, steps, None)
         for p in r["problems"]:
@@ -857,7 +944,9 @@ def run(tier, seed, replay):
                 "pt_tempo_compute into a file vs in memory (metadata, bond dimensions, "
                 "dynamics to 1e-12; individual tensors are gauge dependent) and the recorded set_* calls replayed through the model on "
                 "both representations; compute_correlations, compute_gradient_and_dynamics and PtTebd on "
-                "imported PT-TEMPO tensors vs the original (1e-12).  Distinct = distinct protocol "
+                "imported PT-TEMPO tensors vs the original (1e-12); histories use -> overwrite a step -> "
+                "compute_caps -> export -> import judged against a fresh process tensor built from "
+                "the final tensors (original and both imports).  Distinct = distinct protocol "
                 "line.")
     res.assumptions = [
         "h5py stores/returns complex128 and int32 variable-length rows bit-exactly; a new row "
